@@ -224,6 +224,32 @@ end EX
 open OmplModel.EST OmplModel.PlannerReport
 open OmplModel.RRT (Chain)
 
+/-- a toy instance for the non-vacuity examples: states are naturals on a line, two states are neighbours when
+at most 2 apart, motions of length ≤ 3 that do not touch 7 are valid, goal 9 (threshold 1); integer
+weights `wNew k = 60 / (k+1)`, `wUpd w = w - 1` (the theorems hold for any formulas) -/
+def estToy : Cfg Nat Int where
+  dist a b := (Int.ofNat a - Int.ofNat b).natAbs
+  lt a b := decide (a < b)
+  le a b := decide (a ≤ b)
+  inf := 1000
+  radius := 2
+  goalBias := 1
+  canSample := true
+  rejectP _ := 0
+  wNew k := 60 / (Int.ofNat k + 1)
+  wUpd w := w - 1
+  bounds s := decide (s ≤ 20)
+  valid s := decide (s ≠ 7)
+  checkMotion a b := decide (b ≠ 7 ∧ (Int.ofNat a - Int.ofNat b).natAbs ≤ 3)
+  goalDist s := (Int.ofNat s - 9).natAbs
+  threshold := 1
+
+def estScript : Script Nat Int :=
+  { us := [0, 5, 1, 1, 5, 1, 1, 5, 1, 0], nears := [(true, 5), (true, 6), (false, 0)], goals := [9] }
+
+def estRun (budget : Nat) : Report Nat Int := @solve Nat Int intScale estToy #[4, 30] estScript budget
+
+
 section EST
 variable {S D : Type}
 
@@ -247,6 +273,9 @@ theorem est_tree_inv [WScale D] (cfg : Cfg S D) (starts : Array S) (sc : Script 
   split
   · exact hi.1.tree
   · exact (loop_inv cfg starts budget _ hi.1 hi.2).tree
+
+example : TreeInv estToy #[4, 30] (estRun 6).final.tree := @est_tree_inv Nat Int intScale estToy #[4, 30] estScript 6
+example : (estRun 6).final.tree.size = 4 := by decide
 
 theorem final_pdfInv [WScale D] (cfg : Cfg S D) (hw : ∀ k, WOps.lt (cfg.wNew k) (WOps.zero : D) = false)
     (starts : Array S) (sc : Script S D) (budget : Nat) : PdfInv cfg (solve cfg starts sc budget).final := by
@@ -286,6 +315,15 @@ theorem est_pdf_sync [WScale D] (cfg : Cfg S D) (hw : ∀ k, WOps.lt (cfg.wNew k
     | none => rw [hi] at hwk; simp at hwk
     | some i => exact Array.mem_of_getElem? (h.p.idx.bwd k i hi)
 
+theorem estToy_hw : ∀ k, @WOps.lt Int intScale.toWOps (estToy.wNew k) (@WOps.zero Int intScale.toWOps) = false := by
+  intro k
+  simp only [estToy, intScale, decide_eq_false_iff_not, Int.not_lt]
+  exact Int.ediv_nonneg (by omega) (by omega)
+
+example := @est_pdf_sync Nat Int intScale estToy estToy_hw #[4, 30] estScript 6
+example : (estRun 6).final.pdf.tree = [#[58, 29, 20, 60], #[87, 80], #[167]] ∧ (estRun 6).final.pdf.data = #[0, 1, 2, 3] := by
+  decide
+
 /-- [EX] in an ordered field, with the formulas as coded (`1/(k+1)`, `w/(w+1)`), the weight is
 `1 / (current number of neighbours + 1)`. -/
 theorem est_weight_is_inverse_count {K : Type} [Field K] [LinearOrder K] [IsStrictOrderedRing K]
@@ -299,6 +337,9 @@ theorem est_weight_is_inverse_count {K : Type} [Field K] [LinearOrder K] [IsStri
     field_simp
     push_cast
     ring
+
+example : (fun w : ℚ => w / (w + 1))^[3] (1 / ((2 : ℕ) + 1)) = 1 / 6 := by
+  rw [est_weight_is_inverse_count 2 3]; norm_num
 
 theorem sample_ok_mem [WScale D] (s : Pdf D) (r : D) (h : Nat) (hs : s.sample r = .ok h) : h ∈ s.data := by
   unfold Pdf.sample at hs
@@ -357,6 +398,68 @@ theorem est_select_is_tree_motion [WScale D] (cfg : Cfg S D)
       split at hres
       · cases hres
       · split at hres <;> cases hres
+
+example := @est_select_is_tree_motion Nat Int intScale estToy estToy_hw #[4, 30] estScript 6 1 _ rfl (by decide)
+
+/-- what a truthful report of EST looks like (the shape of C01's `Real` for RRT) -/
+structure EstReal (cfg : Cfg S D) (starts : Array S) (status : Status) (path : List S) (approx : Bool) (dif : D) :
+    Prop where
+  /-- non-empty, first state is a valid in-bounds start of the problem definition -/
+  start : ∃ s0, path.head? = some s0 ∧ ValidStart cfg starts s0
+  /-- consecutive states were answered valid by `checkMotion` -/
+  edges : Chain (fun a b => cfg.checkMotion a b = true) path
+  /-- the reported difference is the goal distance at the last state, and the approximate flag is set
+  exactly when the goal is not satisfied there -/
+  goal : ∃ last, path.getLast? = some last ∧ dif = cfg.goalDist last ∧
+    (approx = false ↔ cfg.lt (cfg.goalDist last) cfg.threshold = true)
+  exact : status = .exactSolution ↔ approx = false
+  approximate : status = .approximateSolution ↔ approx = true
+
+/-- **EST reports only real solutions** [AF]: for every configuration, start set, script and interruption
+point: a solution status means `addSolutionPath` was called with a path that is `EstReal` (starts at a valid
+start, every step passed `checkMotion`, difference = goal distance of the last state, approximate flag
+truthful); any other status (TIMEOUT, INVALID_START) means it was not called. -/
+theorem est_solution_real [WScale D] (cfg : Cfg S D) (starts : Array S) (sc : Script S D) (budget : Nat) :
+    ((solve cfg starts sc budget).status.toBool = true →
+        ∃ path approx dif, (solve cfg starts sc budget).added = some (path, approx, dif) ∧
+          EstReal cfg starts (solve cfg starts sc budget).status path approx dif) ∧
+      ((solve cfg starts sc budget).status.toBool = false → (solve cfg starts sc budget).added = none) := by
+  unfold solve
+  simp only
+  split
+  · exact ⟨fun h => by simp [Status.toBool] at h, fun _ => rfl⟩
+  · have hi := initSt_inv cfg starts sc
+    have hinv := loop_inv cfg starts budget _ hi.1 hi.2
+    generalize loop cfg budget (initSt cfg starts sc).1 = st at hinv
+    split
+    · next i hsol =>
+      refine ⟨fun _ => ?_, fun h => by simp [ofFlags_toBool] at h⟩
+      refine ⟨_, _, _, rfl, ?_⟩
+      cases hs : st.solution with
+      | some j =>
+        simp only [hs, Option.some.injEq] at hsol
+        subst hsol
+        obtain ⟨nd, h1, h2, h3⟩ := hinv.sol j hs
+        obtain ⟨l, e1, e2, e3, e4⟩ := pathTo_spec cfg starts st.tree hinv.tree (j + 1) j nd [] h1 (by omega)
+        simp only [List.append_nil] at e1
+        rw [e1]
+        exact ⟨e2, e3, ⟨nd.state, e4, h3, by simp [h2]⟩, by simp [Status.ofFlags], by simp [Status.ofFlags]⟩
+      | none =>
+        simp only [hs] at hsol
+        obtain ⟨nd, h1, h2, h3⟩ := hinv.approx hs i hsol
+        obtain ⟨l, e1, e2, e3, e4⟩ := pathTo_spec cfg starts st.tree hinv.tree (i + 1) i nd [] h1 (by omega)
+        simp only [List.append_nil] at e1
+        rw [e1]
+        exact ⟨e2, e3, ⟨nd.state, e4, h3, by simp [h2]⟩, by simp [Status.ofFlags], by simp [Status.ofFlags]⟩
+    · exact ⟨fun h => by simp [ofFlags_toBool] at h, fun _ => rfl⟩
+
+/-- non-vacuity: an exact solution (premise of `est_solution_real` satisfiable), interrupted after two iterations an
+approximate one with difference 3 = |9 - 6|, interrupted at once nothing is added (TIMEOUT), without a valid start
+INVALID_START. -/
+example : (estRun 6).status = .exactSolution ∧ (estRun 6).added = some ([4, 5, 6, 9], false, 0) := by decide
+example : (estRun 2).status = .approximateSolution ∧ (estRun 2).added = some ([4, 5, 6], true, 3) := by decide
+example : (estRun 0).status = .timeout ∧ (estRun 0).added = none := by decide
+example : (@solve Nat Int intScale estToy #[30] estScript 6).status = .invalidStart := by decide
 
 end EST
 
